@@ -1,7 +1,7 @@
 //! C11 — attribute values are normalised and defaulted as XML 1.0 §3.3.3 requires.
 
 use crate::engine::{panics, Json, Obs, Property, Tier, Verdict};
-use crate::gen::adoc::{self, AAttr, ADecl, ADoc, ADocType, AElem, AttDef, AttType, DefaultDecl, Piece, QN};
+use crate::gen::adoc::{self, AAttr, ADecl, ADoc, ADocType, AElem, ANode, AttDef, AttType, DefaultDecl, Piece, QN};
 use crate::gen::genes::Genes;
 use crate::props::c01::{attribute, labels_of};
 use proptest::prelude::*;
@@ -125,12 +125,20 @@ pub fn build(genes: Vec<u16>) -> ADoc {
         }
         attrs.push(AAttr { name, value: pieces(&mut g, &entities, 0) });
     }
+    // the same entities referenced in content too: there their white space is NOT normalised, so an
+    // implementation that shares expanded text between the two kinds of use shows up
+    let mut children: Vec<ANode> = vec![];
+    if !entities.is_empty() && g.chance(1, 2) {
+        for _ in 0..g.range(1, 2) {
+            children.push(ANode::EntRef(entities[g.pick(entities.len())].clone()));
+        }
+    }
     ADoc {
         decl: None,
         pre: vec![],
         doctype: Some(ADocType { name: "r".into(), external: None, decls: Some(decls) }),
         pre2: vec![],
-        root: AElem { name: QN::new(None, "r"), ns_decls: vec![], attrs, children: vec![] },
+        root: AElem { name: QN::new(None, "r"), ns_decls: vec![], attrs, children },
         post: vec![],
     }
 }
@@ -211,7 +219,11 @@ impl Property for C11 {
                     labels.push("literal-crlf".into());
                 }
                 let nontrivial = multi_piece || labels.iter().any(|l| l == "defaulted-attr");
-                json!({"text": r.text, "attrs": attrs, "_labels": labels, "_nontrivial": nontrivial})
+                let content_first = !doc.root.children.is_empty() && r.text.len() % 2 == 0;
+                if !doc.root.children.is_empty() {
+                    labels.push(if content_first { "entity-in-content-read-first".into() } else { "entity-in-content-read-last".into() });
+                }
+                json!({"text": r.text, "attrs": attrs, "content_first": content_first, "_labels": labels, "_nontrivial": nontrivial})
             })
             .boxed()
     }
@@ -234,6 +246,14 @@ impl Property for C11 {
             Ok(r) => r,
             Err(_) => return Verdict::fail("c11.no-root", format!("no document element: {:?}", text)),
         };
+        // the content may be read before the attributes (expansion of the shared entities in content mode first)
+        if case["content_first"].as_bool().unwrap_or(false) {
+            use xml_dom::AsStringValue;
+            let _ = root.as_string_value();
+            for c in root.child_nodes().iter() {
+                let _ = c.node_value();
+            }
+        }
         let expected: Vec<(String, String, bool)> = case["attrs"]
             .as_array()
             .map(|a| a.iter().map(|x| (x["local"].as_str().unwrap_or("").to_string(), x["value"].as_str().unwrap_or("").to_string(), x["spec"].as_bool().unwrap_or(true))).collect())
